@@ -106,6 +106,7 @@ BASES = [
     {"authors": [PK["0"], PK["7"], PK["f"]], "kinds": [0, 1, 2, 256], "#e": ["a", "b"]},
     {"authors": [PK["0"], PK["7"], PK["f"]], "kinds": [1, 2], "#e": ["a"]},
     {"#e": ["A"]}, {"#e": [META]}, {"#e": ["\u00e9\u4e2d"]}, {"#e": ["a"], "#p": [PK["0"]]}, {"#e": ["a", "b"], "#p": [PK["0"]]}, {"#e": ["a", "A"]},
+    {"ids": [ID0], "authors": [PK["0"]]}, {"ids": [IDF], "authors": [PK["0"]]},
     {"ids": [ID0]}, {"ids": [IDF]}, {"ids": [ID0, IDF]}, {"ids": [ID0], "kinds": [1]}, {"ids": [ID0], "kinds": [2]},
 ]
 LIMITS = [None, 0, 1, 2, 5]          # None: no "limit" key; 5: above the configured cap of 2
@@ -243,10 +244,30 @@ def backend():
     return BACKEND
 
 
+_INITIAL = None
+
+
+def initial_records():
+    """what a freshly set-up LMDBStorage contains before any event: obtained by running the REAL LMDBStorage.setup() once per process
+    (it writes the end-of-database record the scanner's seek logic relies on)"""
+    global _INITIAL
+    if _INITIAL is None:
+        import asyncio
+
+        async def boot():
+            st = kv.LMDBStorage({"class": "nostr_relay.storage.kv.LMDBStorage", "path": "/nonexistent-in-memory"})
+            await st.setup()
+            data = dict(st.db.data)
+            await st.close()
+            return data
+        _INITIAL = asyncio.run(boot())
+    return _INITIAL
+
+
 def build_env(events):
     env = lmdb.open(path="mem")
+    env.data.update(initial_records())
     with env.begin(write=True) as txn:
-        txn.put(b"\xee", b"")      # the tombstone LMDBStorage.write_tombstone keeps at the top of the keyspace
         for ev in events:
             for index in kv.INDEXES.values():
                 if index.enabled and not isinstance(index, kv.FTSIndex):
@@ -369,6 +390,7 @@ def check_store(store):
             base = {"filter": f, "store": describe(evs), "live": live, "stored": bool(res[fi])}
             if live and not may_in:
                 fails.append(("C05", "live-pushes-non-matching", base, f, store))
+                fails.append(("C01", "live-pushes-non-matching", base, f, store))     # an EVENT frame for a non-matching event
             if strict_in and not live:
                 fails.append(("C05", "live-misses-matching", base, f, store))
             if not on_bound and live != bool(res[fi]):
